@@ -112,6 +112,7 @@ pub fn base_swarm(r: &mut Rng) -> GenCfg {
     w_op[OW_CONVERT] = if r.chance(1, 3) { 1 } else { 0 };
     w_op[OW_ZST] = if r.chance(1, 3) { 1 } else { 0 };
     w_op[OW_HANDLE_IN] = if r.chance(1, 2) { 1 } else { 0 };
+    w_op[OW_COPY] = if r.chance(1, 2) { 1 } else { 0 };
     let mut w_event = [0u32; EW_N];
     w_event[EW_MUTATE] = 10;
     w_event[EW_COLLECT] = 10;
@@ -325,6 +326,7 @@ pub fn swarm(prop: &str, seed: u64) -> (GenCfg, Suffix, Shape) {
             c.quarantine = r.chance(3, 4);
         }
         "C18" => {
+            c.w_op[OW_COPY] = 3;
             c.w_op[OW_BUILDER] = 10;
             c.w_op[OW_BURST] = 0;
             c.max_objs = c.max_objs.min(16);
